@@ -48,7 +48,9 @@ void resume(suspend_point_type* sp) {
     assert_pointers_valid(sp, sp->m_arena);
     task_dispatcher& task_disp = sp->m_resume_task.m_target;
 
+    __TBB_VERIF_POINT(vp_resume_notify, sp, 0);
     if (sp->try_notify_resume()) {
+        __TBB_VERIF_POINT(vp_resume_outcome, sp, 0);
         // TODO: remove this work-around
         // Prolong the arena's lifetime while all coroutines are alive
         // (otherwise the arena can be destroyed while some tasks are suspended).
